@@ -43,13 +43,13 @@ class Evidence:
 
 
 def load_findings(pid):
-    """known_findings.jsonl: one JSON object per line: {property, status: known|fixed, key, what, ...}."""
+    """known_findings.txt: one JSON object per line for a known finding: {property, status: known|fixed, key, what, ...}."""
     out = []
-    p = os.path.join(VERIF, "known_findings.jsonl")
+    p = os.path.join(VERIF, "known_findings.txt")
     if os.path.exists(p):
         for l in open(p):
             l = l.strip()
-            if not l or l.startswith("#"):
+            if not l or l.startswith("#") or l.startswith("fixed:"):
                 continue
             d = json.loads(l)
             if d.get("property") == pid and d.get("status", "known") == "known":
